@@ -259,7 +259,9 @@ P["C04"] = dict(
     claimed=True,
     technique="static analysis: call-graph cycle analysis with explicit fn-pointer edges, dominance of the depth "
               "guard, provenance of re-entering calls, ranking functions for every loop of the resolution code",
-    decides=["R-CHASE-CALLS/error-propagated: the Err of every chase(..) in ParsedParameters::new reaches a `?`",
+    decides=["R-CHASE-CALLS/not-gated-by-locals: no look-up in ParsedParameters::new is made only when the step's own text mentions the key",
+             "R-FORWARD-SELF/name-before-default: the self-reference test compares the name in front of an optional (default)",
+             "R-CHASE-CALLS/error-propagated: the Err of every chase(..) in ParsedParameters::new reaches a `?`",
              "R-PIPELINE-FAIL-FAST: from the failure side of Op::op in pipeline::new no path leads back into the loop over the steps",
              "R-DEFAULT-LATEST: in chase a default met later in the chase (given further out) replaces the earlier one - no write of the default is guarded by the default so far or by the look-up flag",
              "R-FORWARD-SELF/known-only: a self-forwarded argument is dropped only when the caller has a value for it",
@@ -294,7 +296,9 @@ P["C09"] = dict(
     claimed=True,
     technique="static analysis: key-availability dataflow between constructors and parameter-table readers, "
               "validation-before-unwrap, ranking functions for all loops, recursion guard, ellipsoid table grammar",
-    decides=["R-ARRAY-INDEX-GUARD: computed positions in fixed arrays of the text parsing code are kept below the length by a dominating test or a bounded range",
+    decides=["R-NO-MAP-INDEX: the tokenizer and instantiation code never index a BTreeMap with `[key]`",
+             "R-UNSIGNED-SUB/len-sub: `parts.len() - k` in the code that takes user text apart has a dominating test for at least k parts",
+             "R-ARRAY-INDEX-GUARD: computed positions in fixed arrays of the text parsing code are kept below the length by a dominating test or a bounded range",
              "R-CHASE-NEEDLE/nonempty: the list the next needle is popped from is known to be non-empty",
              "R-ELLPS-VALIDATED/writers: outside ParsedParameters::new only validated names (or literals) are stored under ellps* keys of the text map",
              "R-GRID-SIZE-CHECK: no BaseGrid holding its own values is shorter than the interpolation indexes it",
@@ -459,7 +463,8 @@ P["C19"] = dict(
     claimed=True,
     technique="static analysis: element-wise value-graph comparison of every CoordinateSet impl with the documented "
               "defaults; dominance of dimension guards; sign-carrier rule for the sexagesimal conversions",
-    decides=["R-WIDEN-FIRST: functions of coordinate:: that return f64 (or an f64 tuple) do no arithmetic in f32",
+    decides=["R-SETTER-NO-INVENTED: the specialised set_xy / set_xyz of coordinate::set store no tuple built with a constant element",
+             "R-WIDEN-FIRST: functions of coordinate:: that return f64 (or an f64 tuple) do no arithmetic in f32",
              "R-ISO-OPERATORS-PLAIN: the dm / dms operators apply the ISO-6709 conversions and nothing else in their loops",
              "R-OPS-ELEMENTWISE: the 40 macro-generated + - * / operators of the tuple types compute element k from elements k of both operands, for all k below the dimension",
              "R-CTOR-SIBLINGS: geo, gis, raw, arcsec, iso_dm, iso_dms, nan, origin, ones compute their horizontal elements alike for all four tuple types",
@@ -552,7 +557,8 @@ P["C14"] = dict(
 P["C16"] = dict(
     claimed=True,
     technique="static analysis: declaration/use agreement of parameter keys between gamuts, constructors and readers",
-    decides=["R-SEXAGESIMAL-REFUSALS: no NaN result of parse_sexagesimal is decided by the size of a parsed part",
+    decides=["R-NORMALIZE-KEEPS-SEPARATORS/continuation-after-line-ends: continuation colons are looked for after CR was turned into LF, and replaced by a line break",
+             "R-SEXAGESIMAL-REFUSALS: no NaN result of parse_sexagesimal is decided by the size of a parsed part",
              "R-TYPED-EXTRACT/demands: every arm with an optional default can return MissingParam",
              "R-SPLIT-EXHAUSTIVE/whitespace-kind: the tokenizer splits at one kind of white space throughout",
              "R-NORMALIZE-KEEPS-SEPARATORS/continuation: a continuation colon is replaced by white space, not by nothing",
@@ -617,7 +623,8 @@ P["C18"] = dict(
     technique="static analysis: ownership/typing argument made explicit: deep field-type walk (no interior "
               "mutability), who-may-write rule for the context tables, resolution-order dominance in Op::op, fresh "
               "handles, grid-cache access set, and compile-fail witnesses with compiling twins",
-    decides=["R-REGISTRATION-FIRST/only-if-absent: files are read only on the side of the look-up where nothing was registered under the name",
+    decides=["R-REGISTER-FOUND/tag-is-fence: the tag searched for starts with the opening fence (nothing demanded in front of it)",
+             "R-REGISTRATION-FIRST/only-if-absent: files are read only on the side of the look-up where nothing was registered under the name",
              "R-FILE-BEFORE-REGISTER: in each search directory the `.resource` file is read before the `.md` register",
              "R-REGISTER-FOUND/line-ends-first, closing-fence: the tag is searched in text with its CR replaced; the end of an item is the bare fence",
              "R-REGISTER-FOUND: once the opening tag of a register item is found, get_resource returns on every path (a missing closing fence at end of file included)",
